@@ -535,7 +535,7 @@ func c02Scenarios(tier string) []*SeqScenario {
 func c03Scenarios(prop, tier string) []*CrashScenario {
 	alpha := putOps([]int{0, 1, 4}, []int{1, 2})
 	alpha = append(alpha, removeOps([]int{0, 1})...)
-	alpha = append(alpha, Op{Kind: OpFlush}, Op{Kind: OpIdxGC, B: true}, Op{Kind: OpPriGC, A: 0}, Op{Kind: OpPriGC, A: 50}, Op{Kind: OpReopen, A: 0})
+	alpha = append(alpha, Op{Kind: OpFlush}, Op{Kind: OpIdxGC, B: true}, Op{Kind: OpIdxGC, B: false}, Op{Kind: OpPriGC, A: 0}, Op{Kind: OpPriGC, A: 50}, Op{Kind: OpReopen, A: 0})
 	depth := 3
 	cfgs := []Config{
 		cfg("mh", false, 8, 1, 1),
@@ -547,7 +547,7 @@ func c03Scenarios(prop, tier string) []*CrashScenario {
 		pres = gcPreambles()
 		depth = 4
 		cfgs = append(cfgs, cfg("mh", false, 8, bigFile, bigFile), cfg("mh", false, 12, 48, 1), cfg("mh", true, 8, 48, 48))
-		alpha = append(alpha, Op{Kind: OpIdxGC, B: false}, Op{Kind: OpReopen, A: 1})
+		alpha = append(alpha, Op{Kind: OpReopen, A: 1})
 	}
 	var oracles []string
 	if prop == "C07" {
